@@ -193,7 +193,7 @@ pub fn run(ctx: &mut Ctx) {
             ParseOutcome::Panic(p) => println!("wac panics on the recorded text: {p}"),
         }
     }
-    let total = ctx.n(3_000, 8_000_000);
+    let total = ctx.n(15_000, 8_000_000);
     let mutants_per_doc = 10;
     for case in ctx.cases(total) {
         if ctx.out_of_budget() {
